@@ -15,6 +15,7 @@ Helper lemmas: Proofs/Dkg*.lean; reconstruction uses C09 (`Proofs/Share.lean`).
 import DosModel.Gen.VssFacts
 import DosModel.Proofs.DkgHonest
 import DosModel.Proofs.DkgLiveGlobal
+import DosModel.Proofs.DkgTick
 import Mathlib.Algebra.Order.Field.Rat
 
 set_option linter.unusedSectionVars false
@@ -351,6 +352,51 @@ theorem complete_delivery_finishes (c : Cfg F G) (ephs : List (List F)) (hw : We
     (evs : List Ev) (hcomp : Complete c.n (runEvents c ephs evs)) :
     ∀ i, i < c.n → ∃ m d ks, (runEvents c ephs evs).ms[i]? = some m ∧ m.stage = .done d ks :=
   complete_finishes c ephs hw evs hcomp
+
+/-! ### the watchdog of `pdkg.Loop` (round 5, review C finding 4; `Model/DkgTick.lean`) -/
+
+/-- **6a. `watchdog_keeps_unregistered_buffers`.**  `expire` – what a tick of `Loop`'s one-minute watchdog does
+to the (buffer, request) pair of a session, as the code is (`c04_code_shape` pins the closure) – leaves a
+session WITHOUT a registered request exactly as it is and closes nothing, whether or not any context is
+done: the messages that arrived before the local `Grouping` call stay buffered. -/
+theorem watchdog_keeps_unregistered_buffers {M : Type} (p : Pair M) (done : Bool) (h : p.req = none) :
+    expire p done = (p, false) := expire_unregistered p done h
+
+/-- **6b. `tick_never_drops_before_start` – a tick never drops messages of a session that can still start.**
+Take ANY history of a member before its own `Grouping` call: PublicKey, Deal and Response arrivals (any
+messages, any order, any repetition) interleaved with any number of watchdog ticks, at which the contexts
+may or may not be done.  The member ends in exactly the state of the same history WITHOUT the ticks, still
+`idle` with nothing registered. -/
+theorem tick_never_drops_before_start (g : G) (n index : Nat) (long : F) (f ephs : List F) (evs : List (PreEv F G)) :
+    evs.foldl (preStep g) (Member.init n index long f ephs) =
+      evs.foldl (preStepNoTick g) (Member.init n index long f ephs) ∧
+    BeforeStart (evs.foldl (preStep g) (Member.init (S := F) (P := G) n index long f ephs)) :=
+  pre_fold g evs _ (beforeStart_init n index long f ephs)
+
+/-- **6c. `complete_delivery_finishes_with_ticks`.**  Liveness with the watchdog running: a schedule may
+contain ticks at any member at any position; as long as no context is done at a tick (no deadline has
+passed – deadlines are outside the model), the run is the run of the schedule without the ticks, and
+complete delivery makes every member finish. -/
+theorem complete_delivery_finishes_with_ticks (c : Cfg F G) (ephs : List (List F)) (hw : WellFormed c ephs)
+    (evs : List EvT) (hnd : ∀ i d, EvT.tick i d ∈ evs → d = false)
+    (hcomp : Complete c.n (runEventsT c ephs evs)) :
+    runEventsT c ephs evs = runEvents c ephs (dropTicks evs) ∧
+    ∀ i, i < c.n → ∃ m d ks, (runEventsT c ephs evs).ms[i]? = some m ∧ m.stage = .done d ks := by
+  have he : runEventsT c ephs evs = runEvents c ephs (dropTicks evs) := runEventsT_dropTicks c.g evs _ hnd
+  refine ⟨he, ?_⟩
+  rw [he] at hcomp ⊢
+  exact complete_finishes c ephs hw (dropTicks evs) hcomp
+
+/-- **6d.** the rule of the reviewer's escape E7 / the seeded change C04f-watchdog (buffers nobody asked for are
+deleted too) does drop them: what `watchdog_keeps_unregistered_buffers` excludes.  On the real code the case is
+the `net` line whose Loops are a minute old (go/props/c04 `prewarmNet`): oracle `stall-after-watchdog-tick`. -/
+theorem e7_rule_drops_unasked_buffer {M : Type} (x : M) (buf : List M) (done : Bool) :
+    (expireDropUnasked ⟨x :: buf, none⟩ done).1.buf = [] ∧ (expire ⟨x :: buf, none⟩ done).1.buf = x :: buf :=
+  ⟨rfl, rfl⟩
+
+/-- 6b/6c are not vacuous: two key arrivals and a tick with every context done before the start of member 0 -/
+example : ([PreEv.pk ⟨1, some 7, 1⟩, .tick true, .pk ⟨2, some 9, 2⟩, .tick false].foldl (preStep (1 : ℚ))
+    (Member.init (S := ℚ) (P := ℚ) 3 0 5 [4, 2] [11, 12, 13])).pkP.buf.length = 2 := by decide +kernel
 
 /-! ### the theorems above, stated directly over schedules
 
